@@ -236,6 +236,10 @@ package parse
 //@   ensures[S] 0 <= size && size <= 4 && size <= len(p) && (len(p) > 0 ==> size >= 1)
 //@ extern unicode/utf8.DecodeRuneInString
 //@   ensures[S] 0 <= size && size <= 4 && size <= len(s) && (len(s) > 0 ==> size >= 1)
+//@ extern fmt.Errorf
+//@   ensures[S] result != nil
+//@ extern errors.New
+//@   ensures[S] result != nil
 //@ extern bytes.IndexByte
 //@   ensures[S] -1 <= result && result < len(b)
 //@ extern bytes.Equal
@@ -309,3 +313,237 @@ package parse
 //@   loop * candidate len(b) <= len(old(b)) && ptr(b) == ptr(old(b)) && cap(b) == cap(old(b))
 //@   loop 1 decreases 2*len(b) - i
 //@   loop 2 decreases len(b) - i
+
+// ===================================================================== binary.go (C19)
+// Abstract view of a reader back end: clen(f) bytes, content(f, i) the i-th byte.
+//@ ghost clen(f)
+//@ ghost content(f, i)
+
+// Behavioural contract of IBinaryReader (every implementation in the repository is verified against it;
+// call sites through the interface use it).
+//@ func IBinaryReader.Len
+//@   pure
+//@   ensures[S]  result >= 0 && smallInt(result)
+//@   ensures[F]  result == clen(recv)
+
+//@ func IBinaryReader.Bytes
+//@   modifies M.uint8, H.parse.binaryReaderReader.pos
+//@   requires[S] arg1 >= 0 && arg2 >= 0 && smallInt(arg1) && smallInt(arg2) && (arg0 == nil || len(arg0) == arg1)
+//@   ensures[S]  len(result0) <= arg1
+//@   ensures[S]  arg0 != nil && len(arg0) >= arg1 && result0 != nil ==> sameMem(result0, arg0[0:len(result0)])
+//@   ensures[F]  @length: arg1 > 0 && result1 == nil ==> len(result0) == arg1 && arg2 + arg1 <= clen(recv)
+//@   ensures[F]  @content: forall(i, 0, len(result0), result0[i] == content(recv, arg2 + i))
+
+// the in-memory back end defines the abstract view as its data slice
+//@ pred bytesView(r) := clen(r) == len(r.data) && forall(i, 0, len(r.data), content(r, i) == r.data[i])
+//@ func binaryReaderBytes.Len
+//@   requires[F] bytesView(r)
+//@ func binaryReaderBytes.Bytes
+//@   requires[S] r != nil && (b == nil || len(b) >= n)
+//@   requires[F] bytesView(r) && (b == nil || disjoint(b, r.data))
+//@   ensures[F,C19] @length: n > 0 ==> len(result0) == min(n, max(0, clen(r) - off))
+//@   ensures[F,C19] @content: forall(i, 0, len(result0), result0[i] == content(r, off + i))
+//@   ensures[F,C19] @eof: n > 0 ==> ((result1 == io.EOF) <==> off + n > clen(r)) && (result1 == nil || result1 == io.EOF)
+//@   ensures[F,C19] @zero: n == 0 ==> result1 == nil && len(result0) == 0
+
+//@ func binaryReaderBytes.Close
+//@   ensures[S] true
+//@ func newBinaryReaderBytes
+//@   ensures[S] result != nil && sameSlice(result.data, data)
+
+//@ pred mmapView(r) := clen(r) == len(r.data) && r.size == len(r.data) && forall(i, 0, len(r.data), content(r, i) == r.data[i])
+//@ func binaryReaderMmap.Len
+//@   requires[S] r != nil && r.size >= 0 && smallInt(r.size)
+//@   requires[F] mmapView(r)
+//@ func binaryReaderMmap.Bytes
+//@   requires[S] r != nil && (b == nil || len(b) >= n)
+//@   requires[F] mmapView(r) && r.data != nil && (b == nil || disjoint(b, r.data))
+//@   ensures[F,C19] @length: n > 0 ==> len(result0) == min(n, max(0, clen(r) - off))
+//@   ensures[F,C19] @content: forall(i, 0, len(result0), result0[i] == content(r, off + i))
+//@   ensures[F,C19] @eof: n > 0 ==> ((result1 == io.EOF) <==> off + n > clen(r)) && (result1 == nil || result1 == io.EOF)
+
+// ---- BinaryReader: position bookkeeping, sticky first error, io.Seeker semantics, fixed-width decoding
+//@ pred brInv(r) := r != nil && r.f != nil && 0 <= r.pos
+
+//@ func BinaryReader.Pos
+//@   ensures[S] result == r.pos
+//@ func BinaryReader.Err
+//@   ensures[S] result == r.err
+//@ func BinaryReader.Len
+//@   requires[S] brInv(r)
+//@   ensures[F,C19] result == clen(r.f) - r.pos
+
+//@ func BinaryReader.Seek
+//@   preserves[S] brInv(r)
+//@   requires[S] smallInt(r.pos)
+//@   requires[S] smallInt(off)
+//@   ensures[F,C19] @start: whence == 0 ==> ite(0 <= off && off <= clen(r.f), r.pos == off && result0 == off && result1 == nil, r.pos == old(r.pos) && result1 != nil)
+//@   ensures[F,C19] @current: whence == 1 ==> ite(0 <= old(r.pos) + off && old(r.pos) + off <= clen(r.f), r.pos == old(r.pos) + off && result0 == r.pos && result1 == nil, r.pos == old(r.pos) && result1 != nil)
+//@   ensures[F,C19] @end: whence == 2 ==> ite(0 <= clen(r.f) + off && off <= 0, r.pos == clen(r.f) + off && result0 == r.pos && result1 == nil, r.pos == old(r.pos) && result1 != nil)
+//@   ensures[F,C19] @whence: whence != 0 && whence != 1 && whence != 2 ==> r.pos == old(r.pos) && result1 != nil
+
+//@ func BinaryReader.ReadBytes
+//@   preserves[S] brInv(r)
+//@   requires[S] smallInt(r.pos)
+//@   requires[S] 0 <= n && smallInt(n)
+//@   ensures[S]  len(result) <= n && r.pos == old(r.pos) + len(result)
+//@   ensures[F,C19] @sticky: old(r.err) != nil ==> r.err == old(r.err)
+//@   ensures[F,C19] @content: forall(i, 0, len(result), result[i] == content(r.f, old(r.pos) + i))
+//@   ensures[F,C19] @complete: n > 0 && r.err == nil ==> len(result) == n
+
+//@ func BinaryReader.Read
+//@   preserves[S] brInv(r)
+//@   requires[S] smallInt(r.pos)
+//@   ensures[S]  0 <= result0 && result0 <= len(b) && r.pos == old(r.pos) + result0
+//@ func BinaryReader.ReadAt
+//@   preserves[S] brInv(r)
+//@   requires[S] smallInt(r.pos)
+//@   requires[S] 0 <= off && smallInt(off)
+//@   ensures[S]  0 <= result0 && result0 <= len(b) && r.pos == old(r.pos)
+
+//@ func BinaryReader.ReadUint8
+//@   preserves[S] brInv(r)
+//@   requires[S] smallInt(r.pos)
+//@   ensures[F,C19] r.err == nil ==> result == content(r.f, old(r.pos)) && r.pos == old(r.pos) + 1
+//@ func BinaryReader.ReadByte
+//@   preserves[S] brInv(r)
+//@   requires[S] smallInt(r.pos)
+//@ func BinaryReader.ReadUint16
+//@   preserves[S] brInv(r)
+//@   requires[S] smallInt(r.pos)
+//@   ensures[F,C19] @big: r.err == nil && r.ByteOrder != binary.LittleEndian ==> result == content(r.f, old(r.pos))*256 + content(r.f, old(r.pos)+1)
+//@   ensures[F,C19] @little: r.err == nil && r.ByteOrder == binary.LittleEndian ==> result == content(r.f, old(r.pos)+1)*256 + content(r.f, old(r.pos))
+//@   ensures[F,C19] @short: r.pos < old(r.pos) + 2 ==> result == 0
+//@ func BinaryReader.ReadUint24
+//@   preserves[S] brInv(r)
+//@   requires[S] smallInt(r.pos)
+//@   ensures[F,C19] @big: r.err == nil && r.ByteOrder != binary.LittleEndian ==> result == content(r.f, old(r.pos))*65536 + content(r.f, old(r.pos)+1)*256 + content(r.f, old(r.pos)+2)
+//@   ensures[F,C19] @little: r.err == nil && r.ByteOrder == binary.LittleEndian ==> result == content(r.f, old(r.pos)+2)*65536 + content(r.f, old(r.pos)+1)*256 + content(r.f, old(r.pos))
+//@   ensures[F,C19] @short: r.pos < old(r.pos) + 3 ==> result == 0
+//@ func BinaryReader.ReadUint32
+//@   preserves[S] brInv(r)
+//@   requires[S] smallInt(r.pos)
+//@   ensures[F,C19] @big: r.err == nil && r.ByteOrder != binary.LittleEndian ==> result == content(r.f, old(r.pos))*16777216 + content(r.f, old(r.pos)+1)*65536 + content(r.f, old(r.pos)+2)*256 + content(r.f, old(r.pos)+3)
+//@   ensures[F,C19] @little: r.err == nil && r.ByteOrder == binary.LittleEndian ==> result == content(r.f, old(r.pos)+3)*16777216 + content(r.f, old(r.pos)+2)*65536 + content(r.f, old(r.pos)+1)*256 + content(r.f, old(r.pos))
+//@   ensures[F,C19] @short: r.pos < old(r.pos) + 4 ==> result == 0
+//@ func BinaryReader.ReadUint64
+//@   preserves[S] brInv(r)
+//@   requires[S] smallInt(r.pos)
+//@   ensures[F,C19] @short: r.pos < old(r.pos) + 8 ==> result == 0
+//@   ensures[F,C19] @big: r.err == nil && r.ByteOrder != binary.LittleEndian ==> result == content(r.f, old(r.pos))*72057594037927936 + content(r.f, old(r.pos)+1)*281474976710656 + content(r.f, old(r.pos)+2)*1099511627776 + content(r.f, old(r.pos)+3)*4294967296 + content(r.f, old(r.pos)+4)*16777216 + content(r.f, old(r.pos)+5)*65536 + content(r.f, old(r.pos)+6)*256 + content(r.f, old(r.pos)+7)
+//@   ensures[F,C19] @little: r.err == nil && r.ByteOrder == binary.LittleEndian ==> result == content(r.f, old(r.pos)+7)*72057594037927936 + content(r.f, old(r.pos)+6)*281474976710656 + content(r.f, old(r.pos)+5)*1099511627776 + content(r.f, old(r.pos)+4)*4294967296 + content(r.f, old(r.pos)+3)*16777216 + content(r.f, old(r.pos)+2)*65536 + content(r.f, old(r.pos)+1)*256 + content(r.f, old(r.pos))
+//@ func BinaryReader.ReadInt8
+//@   preserves[S] brInv(r)
+//@   requires[S] smallInt(r.pos)
+//@ func BinaryReader.ReadInt16
+//@   preserves[S] brInv(r)
+//@   requires[S] smallInt(r.pos)
+//@ func BinaryReader.ReadInt24
+//@   preserves[S] brInv(r)
+//@   requires[S] smallInt(r.pos)
+//@ func BinaryReader.ReadInt32
+//@   preserves[S] brInv(r)
+//@   requires[S] smallInt(r.pos)
+//@ func BinaryReader.ReadInt64
+//@   preserves[S] brInv(r)
+//@   requires[S] smallInt(r.pos)
+//@ func BinaryReader.ReadString
+//@   preserves[S] brInv(r)
+//@   requires[S] smallInt(r.pos)
+//@   requires[S] 0 <= n && smallInt(n)
+
+// ---- BinaryWriter
+//@ func BinaryWriter.Len
+//@   ensures[S] result == len(w.buf)
+//@ func BinaryWriter.Bytes
+//@   ensures[S] sameSlice(result, w.buf)
+//@ func BinaryWriter.Write
+//@   ensures[S] result0 == len(b) && result1 == nil && len(w.buf) == old(len(w.buf)) + len(b)
+//@   ensures[F,C19] forall(i, 0, old(len(w.buf)), w.buf[i] == old(w.buf[i])) && forall(i, 0, len(b), w.buf[old(len(w.buf)) + i] == old(b[i]))
+//@ func BinaryWriter.WriteBytes
+//@   ensures[S] len(w.buf) == old(len(w.buf)) + len(v)
+//@   ensures[F,C19] forall(i, 0, old(len(w.buf)), w.buf[i] == old(w.buf[i])) && forall(i, 0, len(v), w.buf[old(len(w.buf)) + i] == old(v[i]))
+//@ func BinaryWriter.WriteByte
+//@   ensures[S] len(w.buf) == old(len(w.buf)) + 1
+//@   ensures[F,C19] forall(i, 0, old(len(w.buf)), w.buf[i] == old(w.buf[i])) && w.buf[old(len(w.buf))] == v
+//@ func BinaryWriter.WriteUint8
+//@   ensures[S] len(w.buf) == old(len(w.buf)) + 1
+//@   ensures[F,C19] forall(i, 0, old(len(w.buf)), w.buf[i] == old(w.buf[i])) && w.buf[old(len(w.buf))] == v
+//@ func BinaryWriter.WriteUint24
+//@   ensures[S] len(w.buf) == old(len(w.buf)) + 3
+//@   ensures[F,C19] @prefix: forall(i, 0, old(len(w.buf)), w.buf[i] == old(w.buf[i]))
+//@   ensures[F,C19] @big: w.ByteOrder != binary.LittleEndian ==> w.buf[old(len(w.buf))]*65536 + w.buf[old(len(w.buf))+1]*256 + w.buf[old(len(w.buf))+2] == v % 16777216
+//@   ensures[F,C19] @little: w.ByteOrder == binary.LittleEndian ==> w.buf[old(len(w.buf))+2]*65536 + w.buf[old(len(w.buf))+1]*256 + w.buf[old(len(w.buf))] == v % 16777216
+
+// ---- bitmaps: bit k of a buffer is (buf[k/8] >> (7 - k%8)) & 1
+//@ pred bitAt(buf, k) := (buf[k / 8] / ite(k % 8 == 0, 128, ite(k % 8 == 1, 64, ite(k % 8 == 2, 32, ite(k % 8 == 3, 16, ite(k % 8 == 4, 8, ite(k % 8 == 5, 4, ite(k % 8 == 6, 2, 1)))))))) % 2 == 1
+//@ func BitmapReader.Read
+//@   requires[S] r != nil && len(r.buf) < (1<<28)
+//@   ensures[F,C19] @bit: !old(r.eof) && old(r.pos) < 8*len(r.buf) ==> (result <==> bitAt(r.buf, old(r.pos))) && r.pos == old(r.pos) + 1 && !r.eof
+//@   ensures[F,C19] @eof: old(r.eof) || old(r.pos) >= 8*len(r.buf) ==> !result && r.eof && r.pos == old(r.pos)
+//@ func BitmapReader.Pos
+//@   ensures[S] result == r.pos
+//@ func BitmapReader.EOF
+//@   ensures[S] result == r.eof
+//@ func BitmapWriter.Write
+//@   requires[S] w != nil && w.pos < 8*len(w.buf) + 8 && w.pos < (1<<40)
+//@   ensures[S]  w.pos == old(w.pos) + 1 && w.pos <= 8*len(w.buf) && len(w.buf) >= old(len(w.buf))
+//@   ensures[F,C19] @bit-set: bit ==> bitAt(w.buf, old(w.pos))
+//@   ensures[F,C19] @earlier-bits: forall(k, 0, old(w.pos), k / 8 < old(len(w.buf)) ==> (bitAt(w.buf, k) <==> old(bitAt(w.buf, k))))
+//@ func BitmapWriter.Len
+//@   ensures[S] result == len(w.buf)
+//@ func BitmapWriter.Bytes
+//@   ensures[S] sameSlice(result, w.buf)
+
+//@ func BinaryWriter.WriteUint16
+//@   requires[S] w != nil && w.ByteOrder != nil
+//@ func BinaryWriter.WriteUint32
+//@   requires[S] w != nil && w.ByteOrder != nil
+//@ func BinaryWriter.WriteUint64
+//@   requires[S] w != nil && w.ByteOrder != nil
+//@ func BinaryWriter.WriteInt16
+//@   requires[S] w != nil && w.ByteOrder != nil
+//@ func BinaryWriter.WriteInt32
+//@   requires[S] w != nil && w.ByteOrder != nil
+//@ func BinaryWriter.WriteInt64
+//@   requires[S] w != nil && w.ByteOrder != nil
+
+// ---- io contracts (assumed for external implementations; the repository's own Read/ReadAt/Seek are verified against them)
+//@ iface io.Reader.Read
+//@   modifies M.uint8
+//@   ensures[S] 0 <= result0 && result0 <= len(arg0)
+//@ iface io.ReaderAt.ReadAt
+//@   modifies M.uint8
+//@   ensures[S] 0 <= result0 && result0 <= len(arg0)
+//@ iface io.Seeker.Seek
+//@   modifies nothing
+//@   ensures[S] true
+//@ iface io.ReadSeeker.Read
+//@   modifies M.uint8
+//@   ensures[S] 0 <= result0 && result0 <= len(arg0)
+//@ iface io.ReadSeeker.Seek
+//@   modifies nothing
+//@   ensures[S] true
+
+//@ func binaryReaderReader.Bytes
+//@   assumefacet F
+//@   requires[S] r != nil && r.r != nil && (b == nil || len(b) >= n) && n <= (1<<50)
+//@   loop 1 invariant 0 <= i && i <= n && b != nil && len(b) == n
+//@ func binaryReaderSeeker.Bytes
+//@   assumefacet F
+//@   requires[S] r != nil && r.r != nil && (b == nil || len(b) >= n) && n <= (1<<50)
+//@   loop 1 invariant 0 <= i && i <= n && b != nil && len(b) == n
+//@ func binaryReaderReaderAt.Bytes
+//@   assumefacet F
+//@   requires[S] r != nil && r.r != nil && (b == nil || len(b) >= n) && n <= (1<<50)
+
+// the stream back ends are constructed with the length their client states; it is assumed non-negative and small
+//@ func binaryReaderReader.Len
+//@   assumefacet F
+//@   requires[S] r != nil && r.size >= 0 && smallInt(r.size)
+//@ func binaryReaderSeeker.Len
+//@   assumefacet F
+//@   requires[S] r != nil && r.size >= 0 && smallInt(r.size)
+//@ func binaryReaderReaderAt.Len
+//@   assumefacet F
+//@   requires[S] r != nil && r.size >= 0 && smallInt(r.size)
